@@ -144,7 +144,7 @@ Definition R3 := (sess * result * list call)%type.
 Definition do_auth (s : sess) (afid : N) : R3 :=
   if decide (afid = NOFID) then (s, ROk 0, []) else (s, RErr ENoauth, []).
 
-(* ---- Attach (L231-271) ---- *)
+(* ---- Attach ---- *)
 Definition do_attach (s : sess) (fid afid : N) (ts : list tok) : R3 :=
   if decide (afid = NOFID) then
     match new_ref s fid with
@@ -161,8 +161,8 @@ Definition do_attach (s : sess) (fid afid : N) (ts : list tok) : R3 :=
     | GErr => (s, RErr EUnknown, [])
     | GOk sf _ =>
         match s_file sf with
-        | None => (lock afid s, RErr EUnknown, [])   (* L245-247: returns before `defer aref.Unlock()` *)
-        | Some _ => (s, RErr EUnknown, [])           (* not an AuthFile; the deferred Unlock runs *)
+        | None => (s, RErr EUnknown, [])     (* not open; the deferred Unlock runs *)
+        | Some _ => (s, RErr EUnknown, [])   (* not an AuthFile; the deferred Unlock runs *)
         end
     end.
 
@@ -181,7 +181,7 @@ Definition do_del (s : sess) (fid : N) (remove : bool) (ts : list tok) : R3 :=
       end
   end.
 
-(* ---- Walk (L281-366) ---- *)
+(* ---- Walk ---- *)
 Definition do_walk (s : sess) (fid newfid : N) (names : list bstr) (ts : list tok) : R3 :=
   if (valid_path names <? 0)%Z then (s, RErr EBadpath, []) else
   match get_ref s fid with
@@ -218,9 +218,9 @@ Definition do_walk (s : sess) (fid newfid : N) (names : list bstr) (ts : list to
                   else
                     let '(e', s4) := fresh (t_dir t) s3 in
                     if decide (newfid = fid) then
-                      (* ref.Ent.Clunk(ctx) (error ignored); ref.link(ent): File and Mode are kept *)
+                      (* ref.Ent.Clunk(ctx) (error ignored); File = nil; Mode = 0; ref.link(ent) *)
                       let s5 := g_release e RcWalk (g_use e s4) in
-                      (g_bind (fst e') (put fid (Some e') (s_file sf) (s_mode sf) s5), ROk n, fscall ++ [CClunk e])
+                      (g_bind (fst e') (put fid (Some e') None 0 s5), ROk n, fscall ++ [CClunk e])
                     else
                       (g_bind (fst e') (put newfid (Some e') None 0 (unlock fid s4)), ROk n, fscall)
               end
@@ -246,7 +246,7 @@ Definition do_open (s : sess) (fid mode : N) (ts : list tok) : R3 :=
       end
   end.
 
-(* ---- Create (L459-510) ---- *)
+(* ---- Create ---- *)
 Definition do_create (s : sess) (fid : N) (name : bstr) (mode : N) (ts : list tok) : R3 :=
   if is_dot name || is_dotdot name then (s, RErr EBadname, []) else
   match get_ref s fid with
@@ -266,9 +266,9 @@ Definition do_create (s : sess) (fid : N) (name : bstr) (mode : N) (ts : list to
           let s4 := g_use e' s3 in
           match nn_err (tokn ts 1) with
           | Some err =>
-              (* L492-497: sess.delRef(parent) while holding parent's lock:
-                 LoadAndDelete succeeds, ref.Lock() never returns *)
-              (unreserve fid (lock fid s4), RHang, [CCreate e; COpenDir e'])
+              (* created but not openable: refs.Delete(parent); the fid's SFid is linked to the
+                 new entry and delRefAction clunks it (error ignored); Ent = nil *)
+              (g_release e' RcDrop (g_use e' (unreserve fid s4)), RErr err, [CCreate e; COpenDir e'; CClunk e'])
           | None =>
               (g_bind e' (put fid (Some (e', d')) (Some (Fh e' true false)) mode s4), ROk 0, [CCreate e; COpenDir e'])
           end
